@@ -194,6 +194,12 @@ func runCheck(repo, verif, prop, tier string, keep bool, only string, verbose bo
 			continue
 		}
 		if pk := eng.pkgs[c.Pkg]; len(pk.GoFiles) > 0 && !strings.HasPrefix(pk.GoFiles[0], eng.repo) {
+			for _, sc := range selected {
+				if sc == c {
+					// a unit the property itself names must be verified on /repo's source
+					return fail("contract-stale: " + shortPkg(c.Pkg) + "." + c.Key() + " is tagged with " + prop + " but its package resolves to the module cache (" + filepath.Dir(pk.GoFiles[0]) + "): the units of one property have to live in one module")
+				}
+			}
 			// the package under contract is resolved from the module cache (a pinned release of
 			// the node module used by another module), not from /repo: its contracts are assumed
 			depAssumed["contract of "+shortPkg(c.Pkg)+"."+c.Key()+" assumed for the module-cache copy "+filepath.Dir(pk.GoFiles[0])+" (the same contract is verified on /repo's copy by the properties that own it)"] = true
@@ -214,6 +220,32 @@ func runCheck(repo, verif, prop, tier string, keep bool, only string, verbose bo
 			uc := r.Exec.usedContracts[k]
 			if !uc.Trusted {
 				queue = append(queue, uc)
+			}
+		}
+	}
+	// coverage guard: the units this property's check is known to consist of (units/<prop>.txt,
+	// committed; regenerate with GOVC_RECORD_UNITS=1) must all have been verified - a unit that
+	// silently drops out (renamed function, lost tag, package resolving elsewhere) is a failure
+	if only == "" {
+		have := map[string]bool{}
+		var names []string
+		for _, r := range results {
+			have[r.Unit.Name] = true
+			names = append(names, r.Unit.Name)
+		}
+		sort.Strings(names)
+		uf := filepath.Join(verif, "units", prop+".txt")
+		if os.Getenv("GOVC_RECORD_UNITS") != "" {
+			os.MkdirAll(filepath.Dir(uf), 0o755)
+			os.WriteFile(uf, []byte(strings.Join(names, "\n")+"\n"), 0o644)
+		} else if data, err := os.ReadFile(uf); err == nil {
+			for _, want := range strings.Split(strings.TrimSpace(string(data)), "\n") {
+				if want != "" && !have[want] {
+					u := newUnit(eng, want)
+					o := u.oblige("unit-verified", "contract-stale", "unit "+want+" is part of this property's check", uf, "true", "false")
+					o.Clause = "contract-stale: unit " + want + " was not verified in this run (function or contract gone, tag lost, or package resolved outside /repo)"
+					results = append(results, &UnitResult{Unit: u, Contract: &Contract{File: uf}, Exec: &Exec{libUsed: map[string]bool{}, usedContracts: map[string]*Contract{}}})
+				}
 			}
 		}
 	}
